@@ -112,7 +112,7 @@ pub fn gen_case(seed: u64, idx: usize) -> Case {
     Case { kind: kind.into(), args, gitconfig, env: vec![], stdin: stdin.into() }
 }
 
-fn spec_for(case: &Case, hash_seed: u64, rchunks: Vec<i64>) -> RunSpec {
+fn spec_for(case: &Case, hash_seed: u64, rchunks: Vec<i64>, rdelays: Vec<i64>) -> RunSpec {
     let mut spec = RunSpec::default();
     spec.args = case.args.clone();
     spec.gitconfig = case.gitconfig.clone();
@@ -120,6 +120,7 @@ fn spec_for(case: &Case, hash_seed: u64, rchunks: Vec<i64>) -> RunSpec {
     spec.stdin = case.stdin.clone();
     spec.plan = Plan::basic(hash_seed);
     spec.plan.rchunks = rchunks;
+    spec.plan.rdelays_ms = rdelays;
     spec
 }
 
@@ -128,13 +129,15 @@ pub fn check_case(env: &Env, ctx: &Ctx, case: &Case, hash_seeds: &[u64]) -> (Opt
     let mut runs = 0;
     let mut outs = Vec::new();
     for (i, hs) in hash_seeds.iter().enumerate() {
-        // alternate the delivery schedule as well
-        let rch: Vec<i64> = match i % 3 {
-            0 => vec![],
-            1 => vec![1, 7, 0, 300],
-            _ => vec![64],
+        // alternate the delivery schedule and its timing as well: the producer pauses (delta's
+        // monotonic and wall clocks advance by the pause) between chunks
+        let (rch, rdl): (Vec<i64>, Vec<i64>) = match i % 4 {
+            0 => (vec![], vec![]),
+            1 => (vec![1, 7, 0, 300], vec![0, 700, 0, 3000]),
+            2 => (vec![64], vec![5, 450]),
+            _ => (vec![33, 200], vec![60_000, 0, 1]),
         };
-        let r = match run(env, &spec_for(case, *hs, rch), &ctx.dir.join("run"), false) {
+        let r = match run(env, &spec_for(case, *hs, rch, rdl), &ctx.dir.join("run"), false) {
             Ok(r) => r,
             Err(_) => continue,
         };
@@ -266,7 +269,7 @@ pub fn main_c10(env: &Env, tier: &str, seed: u64, replay: Option<&str>) -> i32 {
     let mut ev = Evidence::new("C10", tier, seed, "exploration");
     ev.evaluations = runs;
     ev.distinct_nontrivial = n as u64;
-    ev.rule = "clause 2 (determinism), E1 part: one evaluation = one execution of the real binary under one hash seed (getrandom stream owned by the shim) and one delivery schedule; a case (generated diff/blame/grep input x option swarm, or --show-config over generated style strings and feature flags) is run under several hash seeds and must give byte-identical stdout/stderr/exit status. distinct_nontrivial = distinct cases (each run under >= 4 different hash seeds).".into();
+    ev.rule = "clause 2 (determinism), E1 part: one evaluation = one execution of the real binary under one hash seed (getrandom stream owned by the shim), one delivery schedule and one timing of it (simulated producer pauses of 0 ms .. 60 s, by which delta's clocks advance); a case (generated diff/blame/grep input x option swarm, or --show-config over generated style strings and feature flags) is run under several hash seeds and must give byte-identical stdout/stderr/exit status. distinct_nontrivial = distinct cases (each run under >= 4 different hash seeds).".into();
     ev.counters = kinds;
     ev.counters.insert("hash_seeds_per_case".into(), h as u64);
     ev.counters.insert("distinct_hash_seeds_used".into(), seeds_used.len() as u64);
